@@ -64,6 +64,6 @@ Proof.
   now rewrite X.
 Qed.
 
-Example C03_rejects : forall x, In x (map s ["a:0-0"; "-1:0-1"; "9223372036854775808:0-1"; "1:"; "0:0 0-1"; "a1"; "0:abc3-0"; "1.0_2"; "1.0-1_2"; "0:0-0:0"; "-"; "1:-"]%string) -> parse x = None.
+Example C03_rejects : forall x, In x (map s ["a:0-0"; "-1:0-1"; "18446744073709551616:0-1"; "+1:1.0"; "-0:1.0"; "1:"; "0:0 0-1"; "a1"; "0:abc3-0"; "1.0_2"; "1.0-1_2"; "0:0-0:0"; "-"; "1:-"]%string) -> parse x = None.
 Proof. intros x H. repeat (destruct H as [<-|H]; [vm_compute; reflexivity|]). contradiction. Qed.
 Print Assumptions C03_parse_grammar.
